@@ -652,7 +652,8 @@ pub fn f6(b: &Bounds) -> Vec<GenProg> {
                 if let Some(g) = gvars.first() {
                     if *g != Var(*av) {
                         head_variants.push(vec![HeadArg::T(g.clone()), HeadArg::A(ag, *av)]);
-                        if !b.quick {
+                        // (quick: for two of the six functions; the column order of the answer is what matters)
+                        if !b.quick || matches!(ag, Agg::Sum | Agg::Min) {
                             head_variants.push(vec![HeadArg::A(ag, *av), HeadArg::T(g.clone())]);
                         }
                     }
